@@ -16,6 +16,8 @@ import Dlismodel.Props.C04
 import Dlismodel.Props.C16
 import Dlismodel.Props.C11
 import Dlismodel.Proofs.Convert
+import Dlismodel.Props.C07
+import Dlismodel.Props.C18
 namespace Dlis.C12
 open Dlis
 
@@ -171,5 +173,51 @@ theorem rejected_assignment_keeps_state (a : AttrSpec) (hc : Bool) (mem um : Lis
     (ps : List Part) (e : Err) (h : setValue a hc mem st v = .error e) :
     assignParts a hc mem um st (.value v :: ps) = (st, some e) := by
   simp [assignParts, h]
+
+/-! ### fail-closed before the first byte: the write-time object checks (`Model/Checks.lean`) -/
+
+/-- a logical file without an origin, without a channel or without a frame: `write` refuses -/
+theorem rejects_incomplete_logical_file (w : World) (c f : Nat) (es : List Edge) (fid : Nat → Bool) (lf : Nat)
+    (hlf : lf < w.keys.length)
+    (h : (originsOfLf w lf).isEmpty = true ∨ (itemsOfKind w lf c).isEmpty = true ∨ (itemsOfKind w lf f).isEmpty = true) :
+    acceptWrite w c f es fid ≠ .ok () := by
+  intro hacc
+  have hc := (checkObjects_ok w lf c f es fid ((acceptWrite_ok w c f es fid hacc).1 lf hlf)).1
+  unfold checkCompleteness at hc
+  rcases h with h | h | h
+  · simp [h] at hc
+  · by_cases h1 : (originsOfLf w lf).isEmpty = true
+    · simp [h1] at hc
+    · simp [h1, h] at hc
+  · by_cases h1 : (originsOfLf w lf).isEmpty = true
+    · simp [h1] at hc
+    · by_cases h2 : (itemsOfKind w lf c).isEmpty = true
+      · simp [h1, h2] at hc
+      · simp [h1, h2, h] at hc
+
+/-- a non-empty set registered by two logical files (whatever lies between them): `write` refuses -/
+theorem rejects_shared_set (w : World) (c f : Nat) (es : List Edge) (fid : Nat → Bool) (a b : Nat) (k : Key)
+    (hab : a < b) (hb : b < w.keys.length) (ka : k ∈ lfKeys w a) (kb : k ∈ lfKeys w b) (hne : itemsOfKey w k ≠ []) :
+    acceptWrite w c f es fid ≠ .ok () := by
+  intro hacc
+  have hw := (acceptWrite_ok w c f es fid hacc).2
+  rw [C18.shared_set_rejected w a b k hab hb ka kb hne] at hw
+  exact Bool.noConfusion hw
+
+/-- a reference to an object of another logical file: `write` refuses (C07) -/
+theorem rejects_foreign_reference (n : Nat) (ops : List Op) (hv : ∀ op ∈ ops, op.lf < n)
+    (c f : Nat) (es : List Edge) (fid : Nat → Bool) (e : Edge) (he : e ∈ es)
+    (hh : e.holder < (run (World.init n) ops).items.length) (ht : e.target < (run (World.init n) ops).items.length)
+    (hne : (run (World.init n) ops).items[e.target].lf ≠ (run (World.init n) ops).items[e.holder].lf) :
+    acceptWrite (run (World.init n) ops) c f es fid ≠ .ok () :=
+  C07.foreign_reference_refused n ops hv c f es fid e he hh ht hne
+
+/-- non-vacuity: three logical files, the first and the third sharing a set -/
+example :
+    let w := run (World.init 3) [.origin 0 (some [48]) [79] none .ok, .item 0 11 (some [48]) [67] none .ok,
+      .item 0 12 (some [48]) [70] none .ok, .origin 1 (some [49]) [79] none .ok, .item 1 11 (some [49]) [67] none .ok,
+      .item 1 12 (some [49]) [70] none .ok, .origin 2 (some [50]) [79] none .ok, .item 2 11 (some [50]) [67] none .ok,
+      .item 2 12 (some [50]) [70] none .ok, .item 0 1 none [90] none .ok, .item 2 1 none [90] none .ok]
+    acceptWrite w 11 12 [] (fun _ => true) = .error .sharedSet := by decide +kernel
 
 end Dlis.C12
